@@ -38,7 +38,7 @@ pub fn slot_workspace(cfg: &GenCfg, c: &SlotCase) -> WorkspaceSpec {
             body_uses: vec![],
         })
     };
-    let test = || Item::Test(TestSpec { suffix: 1, params: vec![0], usefixtures: vec![], indirect: vec![], is_async: false, body_uses: vec![] });
+    let test = || Item::Test(TestSpec { suffix: 1, params: vec![0], usefixtures: vec![], indirect: vec![], is_async: false, body_uses: vec![], defaulted: vec![] });
     let mut files: Vec<FileSpec> = Vec::new();
     // outermost first
     if has(7) {
